@@ -24,6 +24,10 @@ struct Tl {
     /// every finite timeout (and the explorer's time grid) is multiplied by this: 1, or 101
     /// for the seconds-range configurations (20 ms -> 2.02 s)
     scale: u64,
+    /// the executor may poll woken calls late (this many ticks may pass first); the clauses
+    /// about *when* the call resolves presuppose prompt polling and are not judged then, but
+    /// "the inner result if the inner call finished before the deadline" still is
+    late_ticks: usize,
 }
 
 struct X {
@@ -88,7 +92,7 @@ impl Scenario for Tl {
         "C06"
     }
     fn label(&self) -> String {
-        format!("timelimiter cancel={} per_request={} callers={} select_seed={}{}", self.cancel, self.per_request, self.callers, self.seed, if self.flag_first { " builder_order=flag_first" } else if self.scale != 1 { " x101" } else { "" })
+        format!("timelimiter cancel={} per_request={} callers={} select_seed={}{}", self.cancel, self.per_request, self.callers, self.seed, if self.flag_first { " builder_order=flag_first" } else if self.scale != 1 { " x101" } else if self.late_ticks > 0 { " late-polls" } else { "" })
     }
     fn callers(&self) -> usize {
         self.callers
@@ -98,6 +102,9 @@ impl Scenario for Tl {
     }
     fn grid_ms(&self) -> u64 {
         10 * self.scale
+    }
+    fn late_ticks(&self) -> usize {
+        self.late_ticks
     }
     fn init(&self, w: &mut World) -> X {
         let inner = GatedInner::new(w.inner.clone());
@@ -186,12 +193,14 @@ impl Scenario for Tl {
             let avail_out = call.and_then(|k| k.gate);
             match &cl.phase {
                 Phase::Live => {
-                    if let Some(tr) = avail {
+                    if let (Some(tr), true) = (avail, self.late_ticks == 0) {
                         if tr < deadline && !w.needs_poll(c) && cl.last_poll_ms.map_or(true, |lp| lp < tr || cl.wakes_at_last_poll_end < cl.wake_count()) && !cl.flag_set() {
                             out.push(Viol::new("not_woken_on_result", site, format!("caller {c}: inner result available at {tr} < deadline {deadline}, but the caller was not woken")));
                         }
                     }
-                    if now > deadline {
+                    if self.late_ticks > 0 {
+                        // (a late executor: nothing about the instant of resolution is judged)
+                    } else if now > deadline {
                         out.push(Viol::new("unresolved_after_deadline", site, format!("caller {c}: first polled {t0}, deadline {deadline}, still unresolved at {now}")));
                     } else if now == deadline && avail.is_none() && !cl.flag_set() && !matches!(a, Action::Poll(p) if *p as usize == c) {
                         out.push(Viol::new("not_woken_at_deadline", site, format!("caller {c}: deadline {deadline} reached without a wake-up")));
@@ -199,7 +208,7 @@ impl Scenario for Tl {
                 }
                 Phase::Done(o) => {
                     let d = cl.done_ms.unwrap();
-                    if d > deadline {
+                    if d > deadline && self.late_ticks == 0 {
                         out.push(Viol::new("resolved_after_deadline", site, format!("caller {c}: deadline {deadline}, resolved at {d}")));
                     }
                     match o {
@@ -216,7 +225,7 @@ impl Scenario for Tl {
                             }
                             if let Some(k) = call {
                                 if self.cancel {
-                                    if k.status != CallStatus::Dropped || k.end_ms != Some(deadline) || (cl.done_step.is_some() && k.end_step != cl.done_step) {
+                                    if k.status != CallStatus::Dropped || (k.end_ms != Some(deadline) && self.late_ticks == 0) || (cl.done_step.is_some() && k.end_step != cl.done_step) {
                                         out.push(Viol::new("not_cancelled_at_deadline", site, format!("caller {c}: timed out at {d} but the inner call is {:?} (ended {:?})", k.status, k.end_ms)));
                                     }
                                 } else if k.status == CallStatus::Dropped {
@@ -235,7 +244,7 @@ impl Scenario for Tl {
                                 out.push(Viol::new("wrong_result", site, format!("caller {c}: returned {:?} but its inner call ended {:?} (scripted {:?})", o, call.map(|k| &k.status), avail_out)));
                             }
                             if let Some(tr) = avail {
-                                if d != tr && d <= deadline && tr < deadline {
+                                if d != tr && d <= deadline && tr < deadline && self.late_ticks == 0 {
                                     out.push(Viol::new("result_not_at_once", site, format!("caller {c}: result available at {tr}, delivered at {d}")));
                                 }
                                 if tr == deadline && d == deadline {
@@ -260,6 +269,15 @@ impl Scenario for Tl {
         let mut v = vec![];
         if x.tie_result {
             v.push("tie_at_deadline_resolved_as_result");
+        }
+        if self.late_ticks > 0 {
+            for cl in &w.callers {
+                if let (Some(req), Some(t0), Some(d)) = (&cl.req, cl.first_poll_ms, cl.done_ms) {
+                    if matches!(&cl.phase, Phase::Done(Outcome::Ok(_)) | Phase::Done(Outcome::Inner(_))) && d > t0 + timeout_of_scaled(self.per_request, req.key, self.scale) {
+                        v.push("result_delivered_by_a_late_poll_after_the_deadline");
+                    }
+                }
+            }
         }
         if x.tie_timeout {
             v.push("tie_at_deadline_resolved_as_timeout");
@@ -364,12 +382,14 @@ fn configs(tier: Tier) -> Vec<Tl> {
             for seed in seeds {
                 // thorough: three callers under the first select! seed
                 let callers = if tier == Tier::Thorough && seed == 1 { 3 } else { 2 };
-                v.push(Tl { flag_first: false, cancel, per_request, callers, max_ticks: tier.pick(4, 6), max_drops: 1, seed, scale: 1 });
+                v.push(Tl { flag_first: false, cancel, per_request, callers, max_ticks: tier.pick(4, 6), max_drops: 1, seed, scale: 1, late_ticks: 0 });
             }
             // the same with the builder calls in the other order
-            v.push(Tl { flag_first: true, cancel, per_request, callers: 2, max_ticks: tier.pick(4, 5), max_drops: 1, seed: 1, scale: 1 });
+            v.push(Tl { flag_first: true, cancel, per_request, callers: 2, max_ticks: tier.pick(4, 5), max_drops: 1, seed: 1, scale: 1, late_ticks: 0 });
             // timeouts in the seconds range (2.02 s / 3.03 s on a 1.01 s grid)
-            v.push(Tl { flag_first: false, cancel, per_request, callers: 2, max_ticks: tier.pick(4, 5), max_drops: 1, seed: 1, scale: 101 });
+            v.push(Tl { flag_first: false, cancel, per_request, callers: 2, max_ticks: tier.pick(4, 5), max_drops: 1, seed: 1, scale: 101, late_ticks: 0 });
+            // a late executor
+            v.push(Tl { flag_first: false, cancel, per_request, callers: 2, max_ticks: tier.pick(4, 5), max_drops: 0, seed: 1, scale: 1, late_ticks: 2 });
         }
     }
     v
@@ -395,7 +415,7 @@ fn main() {
         "unbiased select! start branch is fixed per execution by the runtime's rng_seed (tokio_unstable); explored under several seeds".into(),
         "an inner completion exactly at the deadline may resolve either way".into(),
     ];
-    for w in ["timed_out", "result_before_deadline", "two_live_calls_with_different_deadlines", "background_call_still_running_after_timeout", "tie_at_deadline_resolved_as_result", "tie_at_deadline_resolved_as_timeout"] {
+    for w in ["timed_out", "result_before_deadline", "two_live_calls_with_different_deadlines", "background_call_still_running_after_timeout", "tie_at_deadline_resolved_as_result", "tie_at_deadline_resolved_as_timeout", "result_delivered_by_a_late_poll_after_the_deadline"] {
         rep.require_witness(w);
     }
     let depth = tier.pick(10, 15);
